@@ -1447,6 +1447,14 @@ func main() {
 	writeIfChanged(filepath.Join(*out, "GenPoolReset.v"), w.Bytes())
 	fmt.Printf("go2v: GenPoolReset.v %d pools, %d Get sites, %d Put sites, %d pooled fields\n", npl, npg, npp, npf)
 
+	// GenMexProg.v (C05): forwardPeerFrame / recvPeerFrame of mex.go as channel programs (chanprog.go)
+	w.Reset()
+	fmt.Fprintf(&w, header, *repo)
+	fmt.Fprintf(&w, "From Coq Require Import List.\nFrom Verif Require Import Spec.ChanProg.\nImport ListNotations.\n")
+	ncp := root.chanProgsSafe(&w)
+	writeIfChanged(filepath.Join(*out, "GenMexProg.v"), w.Bytes())
+	fmt.Printf("go2v: GenMexProg.v %d channel programs\n", ncp)
+
 	// GenTypedBuf.v, GenMessages.v ...: byte-buffer methods and message codecs (methods.go)
 	emitMethodFiles(all, *repo, *out)
 }
